@@ -926,6 +926,25 @@ func runC17(res *Result, rng *RNG, tier string, outDir string) {
 					res.Violate("not-the-signature:"+t.Op, fmt.Sprintf("revocation id %d differs from the signature an independent decoder finds on block %d", i, i), rep)
 				}
 			}
+			// the list handed out belongs to the caller: it reorders it (as a caller sorting identifiers for a
+			// lookup does) and drops an entry; what the token reports afterwards must not have changed.  Only
+			// the LIST is touched, never the bytes of an identifier.
+			if len(ids) > 1 {
+				mine := ids
+				for i, j := 0, len(mine)-1; i < j; i, j = i+1, j-1 {
+					mine[i], mine[j] = mine[j], mine[i]
+				}
+				mine[0] = nil
+				again := t.Tok.RevocationIds()
+				stable := len(again) == len(sigs)
+				for i := 0; stable && i < len(again); i++ {
+					stable = bytes.Equal(again[i], sigs[i])
+				}
+				if !stable {
+					res.Violate("unstable-after-caller-reordered-its-list:"+t.Op, "the revocation identifiers a token reports changed after the caller reordered the list a previous call had returned", rep)
+				}
+				ids = again
+			}
 			if t.Parent >= 0 {
 				pids := f.toks[t.Parent].Tok.RevocationIds()
 				if len(pids) > len(ids) {
